@@ -72,7 +72,7 @@ def gen_case(rng, idx, tier):
                 calls.append(["lsq", rng.randint(0, 3), rng.randint(0, 3), rng.choice(["frac", "float"])])
         return {"kind": "history", "calls": calls}
     if r < 8:
-        cur = gen.curve(rng, rational=False, nintmax=4, dim=rng.choice([0, 0, 0, 2]))
+        cur = gen.curve(rng, rational=False, nintmax=4, dim=rng.choice([0, 0, 0, 2]), magnitudes=True)
         nt = rng.choice(["frac", "frac", "float", "int"]) if all(F(k).denominator == 1 for k in cur["U"]) else rng.choice(["frac", "frac", "float"])
         d = cv.enc_curve(cur, nt)
         d.update(kind="scalar", method=rng.choice([None, None, "closed", "open", "cheby", "gauss"]), extra=rng.choice([0, 0, 1, 3]))
